@@ -17,7 +17,10 @@ RULE = ('Hypothesis draws orchestration scenarios: 1-4 user modules + the three 
         '(source, module) in {absent, reader error, good, lexical / syntax / truncated / semantic defect, empty, '
         'comment-only}, file aliases and two-module files, code generator and writer failures, 0-3 searchers '
         '(doubles and StubSearcher), 0-3 borrowers, all compile options. Non-trivial: >= 1 injected failure and '
-        '>= 1 module still built, or two sources disagreeing on a module. Distinct = scenario hash.')
+        '>= 1 module still built, or two sources disagreeing on a module. Distinct = scenario hash. A quarter of the '
+        'scenarios first makes 1-2 other compile() calls on the same compiler. Small scope: 900 000 scenarios (2 user '
+        'modules x 5 graphs x 5 outcomes per (source, module) x 2 sources x requested set x codegen / writer failure x '
+        'borrower x ignoreErrors x noDeps x searcher) enumerated completely in the thorough tier, every 61st in quick.')
 ASSUMPTIONS = [
     'failures are signalled through PySmiError subclasses or are defects of the MIB text (the statement\'s scope)',
     'a requested file name is accounted for under the module name(s) it holds when a usable source exists',
